@@ -14,7 +14,10 @@ RULE = (
     "(every value the mode admits, incl. day 29-31, day-of-year 366, week "
     "53), zone unknown or given, built through the constructor or the "
     "truncated parser; p in any representation/offset, h < 24, placed freely "
-    "or exactly on / one second before / one second after a match. Oracle: "
+    "or exactly on / one second before / one second after a match; one case "
+    "in eight puts p within an hour of midnight on a month / year / leap-day "
+    "edge with t read in an offset on the other side, one in eight writes "
+    "p's (whole-second) time of day as a decimal hour / minute. Oracle: "
     "brute-force search on vlib.refcal over local days (in t's offset if it "
     "has one, else p's) for the earliest date-time >= p whose specified "
     "fields equal t's, lower time fields zero, time of day unchanged when t "
@@ -286,6 +289,23 @@ def st_case(draw):
             kw = G.respell(draw, cm, inst, tz=(kw["time_zone_hour"],
                                                kw["time_zone_minute"]),
                            allow24=False)
+    special = draw(st.integers(0, 7))
+    if special == 0 and any(k in t for k in "hms"):
+        # p near midnight on a month / year / leap-day edge, t read in an
+        # offset on the other side of that edge
+        kw = draw(G.st_edge_point_kw(cm, forms=("hms",)))
+        t["tz"] = draw(st.sampled_from(
+            [[0, 0], [-kw["time_zone_hour"], -kw["time_zone_minute"]]]))
+        t.pop("tzform", None)
+    elif special == 1 and how == "free" and "tz" not in t:
+        # the same whole-second instant with the time of day written as a
+        # decimal hour / minute (dyadic fraction); t without an offset of its
+        # own, so that no re-zoning turns the fraction into float noise
+        inst = int(M.kw_instant(cm, kw))
+        inst -= inst % 225 if draw(st.booleans()) else inst % 15
+        kw = G.respell(draw, cm, inst, reps=M.kw_rep(kw), tz=(
+            kw["time_zone_hour"], kw["time_zone_minute"]), allow24=False,
+            decimal=True)
     return {"mode": mode, "t": t, "p": kw, "route": route,
             "ext": draw(st.booleans()),
             "order": draw(st.sampled_from(["p+t", "t+p"]))}
